@@ -1,5 +1,7 @@
 import Driver.Proto
 import Gotree.Spec.C12
+import Gotree.Model.C12R
+import Gotree.Model.C12Cli
 
 namespace Gotree.Driver.C12
 open Gotree Gotree.Driver Gotree.C12
@@ -115,6 +117,9 @@ def handleAcr0 (f : List String) : Verdict :=
           else if mo.sets.map sortStrings != isets then ⟨.tie, tags, "model sets differ"⟩
           else if mo.map.map (fun kv => (kv.1, sortStrings kv.2)) != imap then ⟨.tie, tags, "model map differs"⟩
           else
+            -- fidelity figure (decides nothing): the comments character by character, i.e. also the ORDER of the states
+            let tags := tags ++ tagIf (mo.sets.map ("|".intercalate ·) == comments.map (·.headD "")) "fidelity-exact-comments" ++
+              tagIf (comments.all (·.length == 1)) "fidelity-one-comment-per-node"
             -- the model on the re-rooted trees of Spec (`rerootPath`), against the code on the harness' re-rooted copies
             let alphaM := alphabet (m.map (·.2))
             let tvM := acrTipVec m alphaM
@@ -141,19 +146,23 @@ def isPlain (c : Char) : Bool := c == 'A' || c == 'C' || c == 'G' || c == 'T' ||
 
 /-- ASR.  fields: dump, names, sequences, algo | outcome, steps, dump after, steps on re-rooted copies (one list per copy),
     ACR run per column (lists `steps, comment of node 0, comment of node 1 …`; empty unless the alignment is unambiguous) -/
-def handleAsr0 (f : List String) : Verdict :=
+def handleAsr0 (prot : Bool) (f : List String) : Verdict :=
   match f with
   | [dump, ns, sqs, al, outcome, stepsS, dumpAfter, rrs, acrs] =>
     match T.undump dump, parseStrList ns, parseStrList sqs, parseAlgo al, parseStrLists acrs with
     | some t, some names, some seqs, some algo, some acrCols =>
       let m := zipMap names seqs
       let len := (seqs.headD "").length
-      let model := asr t m len algo
+      let model := if prot then asrProt t m len algo else asr t m len algo
+      let univ := if prot then aaAlphabet else asrUniverse
+      let kk := if prot then 22 else 5
+      let tvOf : Nat → String → Vec := fun j n => if prot then aaTipVec m j n else specAsrTipVec m j n
+      let odd := !prot && hasNonIupac seqs
       let missing := !((lookedUp t).all fun n => (lookup m n).isSome)
-      let plain := seqs.all fun s => s.toList.all isPlain
+      let plain := seqs.all fun s => s.toList.all fun c => if prot then aaChars.contains c else isPlain c
       let tags0 := "asr" :: shapeTags t ++ ["algo-" ++ algoStr algo] ++ tagIf missing "tip-missing" ++
         tagIf plain "unambiguous-alignment" ++ tagIf (!plain) "iupac-ambiguity" ++ tagIf (len == 0) "empty-alignment" ++
-        tagIf (seqs.any fun s => s.toList.contains '-') "gaps" ++ tagIf (hasNonIupac seqs) "non-iupac-char"
+        tagIf (seqs.any fun s => s.toList.contains '-') "gaps" ++ tagIf odd "non-iupac-char" ++ tagIf prot "protein" ++ tagIf (prot && seqs.any fun s => s.toList.contains 'X') "all-amino-X"
       if outcome.startsWith "panic" then ⟨.oracle, tags0, "panic: " ++ outcome⟩ else
       if outcome == "err" then
         if !missing && algo != .none then ⟨if rootOk t then .oracle else .tie, "err" :: tags0, "error although every tip has a sequence"⟩
@@ -176,7 +185,7 @@ def handleAsr0 (f : List String) : Verdict :=
           let leafF := leafFlags t
           let nnames := t.nodeNames
           let narrowed := algo == .acctran && (List.range len).any fun j => (List.range leafF.length).any fun i =>
-            leafF.getD i false && ((siteSets j).getD i []).length < (members 5 (specAsrTipVec m j (nnames.getD i ""))).length
+            leafF.getD i false && ((siteSets j).getD i []).length < (members kk (tvOf j (nnames.getD i ""))).length
           let tags := tags0 ++ tagIf narrowed "acctran-ambiguous-tip-narrowed" ++
             tagIf ((steps.any (· ≥ 2)) && ambiguous) "nontrivial" ++ tagIf (rr.length > 0) "rerooted" ++
             tagIf (len ≥ 2) "multi-site" ++ tagIf (!acrCols.isEmpty) "acr-columns"
@@ -186,10 +195,10 @@ def handleAsr0 (f : List String) : Verdict :=
                          then ⟨.pass, "skip-root" :: tags, ""⟩ else ⟨.tie, "skip-root" :: tags, "model differs"⟩
             | none => ⟨.tie, "skip-root" :: tags, "model rejects"⟩
           else
-          let k := 5
+          let k := kk
           let probs := (List.range len).flatMap fun j =>
-            let tv : String → Vec := fun n => specAsrTipVec m j n
-            let rep : Report := ⟨steps.getD j 0, (siteSets j).map fun s => s.map (idxOf asrUniverse)⟩
+            let tv : String → Vec := tvOf j
+            let rep : Report := ⟨steps.getD j 0, (siteSets j).map fun s => s.map (idxOf univ)⟩
             let tipsExact := algo != .acctran || plain
             (reportProblems k tv t (algo == .downpass) true tipsExact rep).map fun p => "site " ++ toString j ++ ": " ++ p
           let probsRR := if rr.all (fun l => l.take len == steps.take len) then [] else ["steps depend on the root"]
@@ -205,7 +214,7 @@ def handleAsr0 (f : List String) : Verdict :=
               else if asets != siteSets j then ["site " ++ toString j ++ ": ASR states differ from ACR states"] else []
           let all := probs ++ probsRR ++ probsAcr
           -- known region: characters without a state set in the code (finding AsrNonIupacCharEmptySet)
-          let cls := if hasNonIupac seqs && probsRR.isEmpty && probsAcr.isEmpty then "class=AsrNonIupacCharEmptySet " else ""
+          let cls := if odd && probsRR.isEmpty && probsAcr.isEmpty then "class=AsrNonIupacCharEmptySet " else ""
           if !all.isEmpty then ⟨.oracle, tags, cls ++ showProblems all⟩ else
           match model with
           | none => ⟨.tie, tags, "model rejects"⟩
@@ -219,12 +228,205 @@ def handleAsr0 (f : List String) : Verdict :=
 
 def withTag (t : String) (v : Verdict) : Verdict := { v with tags := t :: v.tags }
 
+/-- ACR with `randomResolve = true`.  fields: dump, map keys, map values, algo, seed | outcome, steps, dump after,
+    the next Int31() of the global source after the call, the first Int31() values of a source with that seed -/
+def handleAcrR (f : List String) : Verdict :=
+  match f with
+  | [dump, ks, vs, al, _seed, outcome, stepsS, dumpAfter, nextS, streamS] =>
+    match T.undump dump, parseStrList ks, parseStrList vs, parseAlgo al, parseNatList streamS with
+    | some t, some keys, some vals, some algo, some stream =>
+      let m := zipMap keys vals
+      let tags0 := "random-resolve" :: shapeTags t ++ ["algo-" ++ algoStr algo]
+      if !(rootOk t) then ⟨.pass, "skip-root" :: tags0, ""⟩ else
+      if outcome != "ok" then ⟨.oracle, tags0, "random resolution failed: " ++ outcome⟩ else
+      match stepsS.toNat?, T.undump dumpAfter, (if nextS == "" then some none else nextS.toNat?.map some) with
+      | some steps, some ta, some next =>
+        let isets : List (List String) := (nodeComments ta).map fun c => splitSet "|" (c.headD "")
+        let tipStates := (leavesL t.kids).filterMap (lookup m)
+        let alpha := dedup tipStates
+        let k := alpha.length
+        let tv : String → Vec := fun n => match lookup m n with
+          | some st => tab k fun i => if i = idxOf alpha st then 1 else 0
+          | none => vzero k
+        let rep : Report := ⟨steps, isets.map fun s => s.map (idxOf alpha)⟩
+        let up := acr t m .none
+        let ndraws := match up with
+          | some u => ((List.zip u.sets (leafFlags t)).filter fun (st, lf) => !lf && st.length > 1).length
+          | none => 0
+        let tags := tags0 ++ ["states-" ++ toString k] ++ tagIf (ndraws ≥ 1) "nontrivial" ++ tagIf (ndraws ≥ 3) "many-draws" ++
+          tagIf (tipsOk k tv t) "hyp-tipsOk"
+        let probs := reportProblemsR k tv t false (algo != .none) true rep
+        let unresolved := algo != .none && (List.zip isets (leafFlags t)).any fun (st, lf) => !lf && st.length != 1
+        if !probs.isEmpty then ⟨.oracle, tags, showProblems probs⟩ else
+        if unresolved then ⟨.tie, tags, "an inner node is still ambiguous after random resolution"⟩ else
+        match acrR t m algo stream with
+        | none => ⟨.tie, tags, "model rejects"⟩
+        | some mo =>
+          if mo.steps != steps then ⟨.tie, tags, "model steps " ++ toString mo.steps⟩
+          else if mo.sets.map sortStrings != isets then ⟨.tie, tags, "model draws other states"⟩
+          else if next.isSome && mo.next != next then ⟨.tie, tags, "model consumes another number of draws"⟩
+          else ⟨.pass, tags, ""⟩
+      | _, _, _ => bad "C12.acrr outputs"
+    | _, _, _, _, _ => bad "C12.acrr fields"
+  | _ => bad "C12.acrr arity"
+
+def splitFirstComma (l : String) : String × String :=
+  let cs := l.toList
+  (String.ofList (cs.takeWhile (· != ',')), String.ofList ((cs.dropWhile (· != ',')).drop 1))
+
+def linesOf (txt : String) : List String := (txt.splitOn "\n").filter (· != "")
+
+/-- first verdict that is not PASS (ORACLE before TIE), tags merged -/
+def worst (vs : List Verdict) (tags : List String) : Verdict :=
+  let allTags := tags ++ (vs.flatMap (·.tags)).eraseDups
+  match vs.find? (·.status == .oracle) with
+  | some v => ⟨.oracle, allTags, v.detail⟩
+  | none =>
+    match vs.find? (·.status == .bad) with
+    | some v => ⟨.bad, allTags, v.detail⟩
+    | none =>
+      match vs.find? (·.status == .tie) with
+      | some v => ⟨.tie, allTags, v.detail⟩
+      | none => ⟨.pass, allTags, ""⟩
+
+/-- `gotree acr` with all its options.  fields: dumps of the input trees, lines of the states file, --algo as typed,
+    options used | exit class, text of the steps output, dumps of the output trees, text of --out-states ("-" = not asked) -/
+def handleAcrFull (f : List String) : Verdict :=
+  match f with
+  | [dumps, linesS, algoE, opts, outcome, stepsE, dumpsAfter, statesE] =>
+    match (splitTerm "|" dumps).mapM T.undump, parseStrList linesS, unescape algoE, unescape stepsE,
+      (if statesE == "-" then some none else (unescape statesE).map some) with
+    | some trees, some lines, some algoS, some stepsTxt, some statesTxt =>
+      let model := acrCli algoS lines trees
+      let tags := ["cli", "cli-full", "trees-" ++ toString trees.length] ++ (opts.splitOn ",").filter (· != "") ++
+        tagIf ((cliAlgo algoS).isNone) "algo-unknown" ++ tagIf (algoS != algoS.toLower) "algo-mixed-case" ++
+        tagIf ((parseTipStates lines []).isNone) "states-malformed" ++ tagIf (trees.length ≥ 2) "nontrivial"
+      if outcome.startsWith "panic" then ⟨.oracle, tags, "panic: " ++ outcome⟩ else
+      match model, outcome with
+      | .silent, "silent" => ⟨.pass, "outcome-silent" :: tags, ""⟩
+      | .fail _, "fail" => ⟨.pass, "outcome-fail" :: tags, ""⟩
+      | .ok recs, "ok" =>
+        let afters := splitTerm "|" dumpsAfter
+        if afters.length != recs.length then ⟨.tie, tags, "number of output trees"⟩ else
+        let m := (parseTipStates lines []).getD []
+        let ks := showStrList (m.map (·.1))
+        let vs := showStrList (m.map (·.2))
+        let stepsL := linesOf stepsTxt
+        let implStates : List String := match statesTxt with | some t => linesOf t | none => []
+        -- per tree: the same oracle and tie as the library tier
+        let rec go (ts : List T) (rs : List AcrOut) (as : List String) (sl : List String) (il : List String) (acc : List Verdict) : List Verdict :=
+          match ts, rs, as with
+          | t :: ts', r :: rs', a :: as' =>
+            let stepsI := ((sl.headD "").splitOn " ").getD 1 "?"
+            let mine := il.take r.map.length
+            let (mk, mv) := match statesTxt with
+              | some _ => (mine.map fun l => (splitFirstComma l).1, mine.map fun l => (splitFirstComma l).2)
+              | none => (r.map.map (·.1), r.map.map fun kv => ",".intercalate kv.2)
+            let v := handleAcr0 [t.dump, ks, vs, algoS.toLower, "ok", stepsI, a, showStrList mk, showStrList mv, "", ""]
+            go ts' rs' as' (sl.drop 1) (il.drop r.map.length) (v :: acc)
+          | _, _, _ => acc.reverse
+        let per := go trees recs afters stepsL implStates []
+        let fmtV : List Verdict :=
+          (if stepsTxt != String.join (recs.map fun r => stepsLine r.steps ++ "\n") then [⟨.tie, [], "text of the steps output differs from the model's"⟩] else []) ++
+          (match statesTxt with
+           | some t => if t != String.join (recs.flatMap fun r => (statesLines r).map (· ++ "\n")) then
+               [⟨.tie, [], "text of --out-states differs from the model's"⟩] else []
+           | none => [])
+        worst (per ++ fmtV) ("outcome-ok" :: tags)
+      | .ok _, _ => ⟨.oracle, tags, "valid input, but the command ended as: " ++ outcome⟩
+      | .fail _, "ok" => ⟨.oracle, tags, "a bad states file or a tip without state was accepted"⟩
+      | _, _ => ⟨.tie, tags, "exit class " ++ outcome ++ " differs from the model's"⟩
+    | _, _, _, _, _ => bad "C12.acrfull fields"
+  | _ => bad "C12.acrfull arity"
+
+/-- `gotree asr` with all its options.  fields: dumps, names, sequences, --algo as typed, options | exit class,
+    text of the log, dumps of the output trees -/
+def handleAsrFull (f : List String) : Verdict :=
+  match f with
+  | [dumps, ns, sqs, algoE, opts, outcome, logE, dumpsAfter] =>
+    match (splitTerm "|" dumps).mapM T.undump, parseStrList ns, parseStrList sqs, unescape algoE, unescape logE with
+    | some trees, some names, some seqs, some algoS, some logTxt =>
+      let m := zipMap names seqs
+      let len := (seqs.headD "").length
+      let tags := ["cli", "cli-full", "asr", "trees-" ++ toString trees.length] ++ (opts.splitOn ",").filter (· != "") ++
+        tagIf ((cliAlgo algoS).isNone) "algo-unknown" ++ tagIf (algoS != algoS.toLower) "algo-mixed-case" ++
+        tagIf (trees.length ≥ 2) "nontrivial"
+      if outcome.startsWith "panic" then ⟨.oracle, tags, "panic: " ++ outcome⟩ else
+      let recs : Option (List AsrOut) := match asrCliAlgo algoS with
+        | none => none
+        | some algo => trees.mapM fun t => asr t m len algo
+      match recs, outcome with
+      | none, "fail" => ⟨.pass, "outcome-fail" :: tags, ""⟩
+      | some rs, "ok" =>
+        let afters := splitTerm "|" dumpsAfter
+        if afters.length != rs.length then ⟨.tie, tags, "number of output trees"⟩ else
+        let logL := linesOf logTxt
+        let per := (List.zip trees (List.zip afters logL)).map fun (t, a, l) =>
+          let stepsI := joinTerm "," ((l.splitOn " ").drop 1)
+          handleAsr0 false [t.dump, ns, sqs, algoS.toLower, "ok", stepsI, a, "", ""]
+        let fmtV : List Verdict :=
+          if logTxt != String.join (rs.map fun r => asrLogLine r.steps ++ "\n") then [⟨.tie, [], "text of the log differs from the model's"⟩] else []
+        worst (per ++ fmtV) ("outcome-ok" :: tags)
+      | some _, _ => ⟨.oracle, tags, "valid input, but the command ended as: " ++ outcome⟩
+      | none, "ok" =>
+        if (asrCliAlgo algoS).isSome then ⟨.oracle, tags, "a tip without sequence was accepted"⟩
+        else ⟨.tie, tags, "unknown --algo accepted"⟩
+      | _, _ => ⟨.tie, tags, "exit class " ++ outcome ++ " differs from the model's"⟩
+    | _, _, _, _, _ => bad "C12.asrfull fields"
+  | _ => bad "C12.asrfull arity"
+
+/-- ASR with `randomResolve = true` (nucleotides).  fields: dump, names, sequences, algo, seed | outcome, steps, dump after,
+    next Int31() of the global source ("" when not observable), first Int31() values of a source with that seed -/
+def handleAsrR (f : List String) : Verdict :=
+  match f with
+  | [dump, ns, sqs, al, _seed, outcome, stepsS, dumpAfter, nextS, streamS] =>
+    match T.undump dump, parseStrList ns, parseStrList sqs, parseAlgo al, parseNatList streamS with
+    | some t, some names, some seqs, some algo, some stream =>
+      let m := zipMap names seqs
+      let len := (seqs.headD "").length
+      let plain := seqs.all fun s => s.toList.all isPlain
+      let tags0 := "random-resolve" :: "asr" :: shapeTags t ++ ["algo-" ++ algoStr algo] ++ tagIf (len ≥ 2) "multi-site" ++
+        tagIf (!plain) "iupac-ambiguity"
+      if !(rootOk t) then ⟨.pass, "skip-root" :: tags0, ""⟩ else
+      if outcome != "ok" then ⟨.oracle, tags0, "random resolution failed: " ++ outcome⟩ else
+      match parseNatList stepsS, T.undump dumpAfter, (if nextS == "" then some none else nextS.toNat?.map some) with
+      | some steps, some ta, some next =>
+        match (nodeComments ta).mapM (fun c => parseSeqSets (c.getLastD "").toList none []) with
+        | none => bad "C12.asrr comment"
+        | some perNode =>
+          if !(perNode.all (·.length == len) && steps.length ≥ len) then ⟨.oracle, tags0, "wrong number of sites in the output"⟩ else
+          let siteSets (j : Nat) : List (List String) := perNode.map fun s => sortStrings (s.getD j [])
+          let probs := (List.range len).flatMap fun j =>
+            let rep : Report := ⟨steps.getD j 0, (siteSets j).map fun s => s.map (idxOf asrUniverse)⟩
+            (reportProblemsR 5 (specAsrTipVec m j) t false true (algo != .acctran || plain) rep).map fun p =>
+              "site " ++ toString j ++ ": " ++ p
+          let tags := tags0 ++ tagIf (steps.any (· ≥ 2)) "nontrivial"
+          if !probs.isEmpty then ⟨.oracle, tags, showProblems probs⟩ else
+          match asrR t m len algo stream with
+          | none => ⟨.tie, tags, "model rejects"⟩
+          | some mo =>
+            if mo.steps.take len != steps.take len then ⟨.tie, tags, "model steps differ"⟩
+            else if mo.sets.map (·.map sortStrings) != perNode.map (·.map sortStrings) then ⟨.tie, tags, "model draws other states"⟩
+            else if next.isSome && mo.next != next then ⟨.tie, tags, "model consumes another number of draws"⟩
+            else ⟨.pass, tags, ""⟩
+      | _, _, _ => bad "C12.asrr outputs"
+    | _, _, _, _, _ => bad "C12.asrr fields"
+  | _ => bad "C12.asrr arity"
+
 def handle (op : String) (f : List String) : Verdict :=
   match op with
   | "acr" => handleAcr0 f
-  | "asr" => handleAsr0 f
+  | "asr" => handleAsr0 false f
+  | "asrp" => handleAsr0 true f
+  | "asrpcli" => withTag "cli" (handleAsr0 true f)
   | "acrcli" => withTag "cli" (handleAcr0 f)
-  | "asrcli" => withTag "cli" (handleAsr0 f)
+  | "acrfull" => handleAcrFull f
+  | "asrfull" => handleAsrFull f
+  | "acrr" => handleAcrR f
+  | "acrrcli" => withTag "cli" (handleAcrR f)
+  | "asrr" => handleAsrR f
+  | "asrrcli" => withTag "cli" (handleAsrR f)
+  | "asrcli" => withTag "cli" (handleAsr0 false f)
   | _ => bad ("C12: unknown op " ++ op)
 
 end Gotree.Driver.C12
